@@ -104,6 +104,24 @@ def _structure_job(args):
             measure(rec, "zero-one-pattern", {"A": B.tolist()}, B)
             measure(rec, "permutation-like", {"which": "mono:rev"}, E.ulib(n)[2][1])
             measure(rec, "permutation-like", {"which": "mono:cyc"}, E.ulib(n)[1][1])
+            # sparsity patterns whose zero columns are filled in by EARLIER reflectors: arrow, zero interior column,
+            # full first column + banded rest, upper-left-justified block
+            if n >= 4:
+                Ar = np.zeros((n, n, 4))
+                Ar[0, :], Ar[:, 0] = G[0, :], G[:, 0]
+                for i in range(n):
+                    Ar[i, i] = G[i, i]
+                measure(rec, "fill-in-pattern", {"which": "arrow", "A": Ar.tolist()}, Ar)
+                for kz in range(1, n - 2):
+                    Zi = G.copy()
+                    Zi[kz + 2:, kz] = 0
+                    measure(rec, "fill-in-pattern", {"which": "interior column %d zero below the sub-diagonal" % kz, "A": Zi.tolist()}, Zi)
+                Bd = np.zeros((n, n, 4))
+                for i in range(n):
+                    for j in range(n):
+                        if abs(i - j) <= 1 or j == 0:
+                            Bd[i, j] = G[i, j]
+                measure(rec, "fill-in-pattern", {"which": "full first column, tridiagonal rest", "A": Bd.tolist()}, Bd)
             # pure imaginary / single axis sub-column
             Pm = G.copy()
             Pm[1:, 0, 0] = 0
